@@ -28,6 +28,9 @@ func TestProbe(t *testing.T) {
 		f1, err := fmtSrc(src, kind)
 		if err != nil {
 			fmt.Println("--- FORMAT ERROR:", err)
+			if o := oracle(Case{Kind: kind, Src: src}); o.Fail != nil {
+				fmt.Println("--- ORACLE FAIL sig:", o.Fail.Sig)
+			}
 			continue
 		}
 		if os.Getenv("C05_SHOW") != "" {
@@ -36,6 +39,18 @@ func TestProbe(t *testing.T) {
 		r1 := execEgo(f1, mode, true, 20*time.Second)
 		if outcomeOf(r0) != outcomeOf(r1) {
 			fmt.Printf("--- formatted DIFFERS: %s\n", outcomeOf(r1))
+			if m := regexp.MustCompile(`line (\d+)`).FindStringSubmatch(r1.CompileErr); m != nil {
+				var l int
+				fmt.Sscan(m[1], &l)
+				fl := strings.Split(f1, "\n")
+				for i := l - 4; i < l+2; i++ {
+					if i >= 0 && i < len(fl) {
+						fmt.Printf("   f%4d| %s\n", i+1, fl[i])
+					}
+				}
+				cons, sh, _ := describeDiff(src, f1)
+				fmt.Println("   first token diff:", cons, sh)
+			}
 		} else {
 			fmt.Println("--- formatted: same")
 		}
